@@ -1,6 +1,7 @@
 import Dcg.Driver.Proto
 import Dcg.Model.Escape
 import Dcg.Proofs.Escape
+import Dcg.Proofs.PatternLit
 import Dcg.Gen.EscTables
 namespace Dcg.Driver.Escape
 open Dcg.Driver Dcg.Model.Escape Dcg.Gen.EscTables Dcg.Proofs.Escape
@@ -42,7 +43,7 @@ def handlers : List (String × Handler) := [
     | _ => "err args"),
   ("esc.rawsafe", fun
     | [s] => match s.str? with
-      | some s => "ok " ++ toString (patternRawOK s)
+      | some s => "ok " ++ toString (patternRawOK Dcg.Proofs.PatternLit.cpythonPrintable s)
       | none => "err args"
     | _ => "err args")
 ]
